@@ -1,7 +1,7 @@
 (* Extraction of the executable models and checkers (run outside the main build:
    cd ocaml/extracted && coqc -Q ../../coq ES ../../coq/Extract.v). *)
 From Coq Require Extraction ExtrOcamlBasic ExtrOcamlString.
-From ES Require Import Base Ssb.Param Ssb.Cfg Ssb.Equiv Ssb.Machine Lang.Ast Lang.Spec Lang.SrcSem
+From ES Require Import Base Ssb.Param Ssb.Cfg Ssb.Equiv Ssb.Machine Lang.Ast Lang.Spec Lang.SrcSem Lang.Inline
   Comp.Passes Comp.Closed Text.Dec SM.Model Script.Model.
 Extraction Language OCaml.
 Extraction "extracted.ml"
@@ -9,4 +9,5 @@ Extraction "extracted.ml"
   strip finalize remove_all passes ordered closed_b
   serialize deserialize rewrite_offsets
   print_script compile_script renumber
+  inline
   Z.add Z.mul Z.opp Z.abs Z.div_eucl.
